@@ -490,8 +490,11 @@ class TaskScenario(ScenarioData):
                                 gap_hours = self._parse_duration(gaplength)
                                 # gap_hours of working time, counted in slots of the scheduling resolution
                                 slot_seconds = self.project.attributes.get("scheduleGranularity", 3600)
-                                gap_slots = int(gap_hours * 3600 / slot_seconds)
+                                # (a gap that is not a whole number of slots is rounded up, never cut short)
+                                gap_slots = -int(-round(gap_hours * 3600 / slot_seconds, 6) // 1)
                                 dep_time_idx = self.project.dateToIdx(dep_time)
+                                # The gap is counted from the predecessor's end, which may lie inside its slot
+                                intra_slot = dep_time - self.project.idxToDate(dep_time_idx)
                                 # Skip gap_slots of working time; a gap that does not fit the scheduling
                                 # horizon puts the bound behind its end (the task is then unschedulable)
                                 gap_limit = self.project.dateToIdx(self.project["end"])
@@ -500,7 +503,7 @@ class TaskScenario(ScenarioData):
                                     if self.isWorkingTime(dep_time_idx):
                                         working_slots += 1
                                     dep_time_idx += 1
-                                dep_time = self.project.idxToDate(dep_time_idx)
+                                dep_time = self.project.idxToDate(dep_time_idx) + intra_slot
                             if dep_time > earliest_start:
                                 earliest_start = dep_time
 
